@@ -10,6 +10,5 @@ Definition code_is_fixed : bool := true.
 Definition dict_drops_zero : bool := false.
 
 (* samples_from_iterator reads a table ending with the four reserved columns by position:
-   false = code as it is, true = after proposed_fixes/C09-table-columns-by-position.diff
-   (then mark reserved-column-name fixed in known_findings/C09.json; C09_tree_csv_by_position is the theorem) *)
-Definition table_reads_by_position : bool := false.
+   false = before, true = since /repo commit b5615dc (proposed_fixes/C09-table-columns-by-position.diff); C09_tree_csv is the theorem *)
+Definition table_reads_by_position : bool := true.
